@@ -1119,4 +1119,19 @@ theorem termDelta_noop (colors : Int) (h8 : 8 ≤ colors) (l : Pen) (op : Op) (h
 theorem xtermChpen_empty (caps : Caps) (cap : Nat) (final : Pen) : xtermChpen caps cap {} final = .bytes [] := by
   simp [xtermChpen, comps, colourComps, boolComps, underComps, altfontComps, sizeposComps, flatten]
 
+/-! ### 11. histories -/
+
+theorem runOps_append (cfg : Cfg) (xs ys : List Op) (st : TState) :
+    runOps cfg (xs ++ ys) st = (runOps cfg xs st).bind (runOps cfg ys) := by
+  induction xs generalizing st with
+  | nil => rfl
+  | cons x xs ih =>
+    simp only [List.cons_append, runOps]
+    split
+    · rfl
+    · exact ih _
+
+theorem logical_snoc (ops : List Op) (op : Op) : logical (ops ++ [op]) = logicalStep (logical ops) op := by
+  simp [logical, List.foldl_append]
+
 end Tickit.Proof.Sgr
